@@ -502,6 +502,66 @@ mod refwrite {
     pub fn top(v: &Value, rng: &mut Rng) -> String { match v { Value::Grid(g) => grid(g, rng, 0, false), other => value(other, rng, 0) } }
 }
 
+
+// ---- an independent *writer* for Hayson that picks, at random, among the spellings the format allows: members in any order, the optional
+//      "_kind":"dict", "tz":"UTC" present or absent for UTC timestamps, numbers as integer / decimal / exponent text, optional grid and column meta
+mod refhaysonwrite {
+    use super::randgen::Rng;
+    use libhaystack::val::{Dict, Grid, Value};
+    fn js(s: &str) -> String { serde_json::to_string(s).unwrap() }
+    fn obj(mut members: Vec<(String, String)>, rng: &mut Rng) -> String {
+        for i in (1..members.len()).rev() { let j = rng.below(i + 1); members.swap(i, j); }
+        format!("{{{}}}", members.iter().map(|(k, v)| format!("{}:{}", js(k), v)).collect::<Vec<_>>().join(","))
+    }
+    fn num(x: f64, rng: &mut Rng) -> String {
+        if x == 0.0 && x.is_sign_negative() { return "-0.0".into(); }
+        match rng.below(3) { 0 => format!("{x:e}"), 1 if x.fract() == 0.0 && x.abs() < 1e15 => format!("{}", x as i64), _ => { let t = format!("{x}"); if t.contains('.') || t.contains('e') { t } else { format!("{t}.0") } } }
+    }
+    fn dict(d: &Dict, rng: &mut Rng, kind: bool) -> String {
+        let mut m: Vec<(String, String)> = d.iter().map(|(k, v)| (k.clone(), value(v, rng))).collect();
+        if kind { m.push(("_kind".into(), js("dict"))); }
+        obj(m, rng)
+    }
+    pub fn value(v: &Value, rng: &mut Rng) -> String {
+        let k = |name: &str| ("_kind".to_string(), js(name));
+        match v {
+            Value::Null => "null".into(), Value::Bool(b) => b.value.to_string(), Value::Str(s) => js(&s.value),
+            Value::Marker => obj(vec![k("marker")], rng), Value::Remove => obj(vec![k("remove")], rng), Value::Na => obj(vec![k("na")], rng),
+            Value::Number(n) => {
+                let special = if n.value.is_nan() { Some("NaN") } else if n.value == f64::INFINITY { Some("INF") } else if n.value == f64::NEG_INFINITY { Some("-INF") } else { None };
+                match (special, n.unit) {
+                    (Some(t), _) => obj(vec![k("number"), ("val".into(), js(t))], rng),
+                    (None, None) => if rng.below(4) == 0 { obj(vec![k("number"), ("val".into(), num(n.value, rng))], rng) } else { num(n.value, rng) },
+                    (None, Some(u)) => obj(vec![k("number"), ("val".into(), num(n.value, rng)), ("unit".into(), js(u.symbol()))], rng) } }
+            Value::Ref(r) => { let mut m = vec![k("ref"), ("val".into(), js(&r.value))]; if let Some(d) = &r.dis { m.push(("dis".into(), js(d))); } obj(m, rng) }
+            Value::Symbol(x) => obj(vec![k("symbol"), ("val".into(), js(&x.value))], rng),
+            Value::Uri(x) => obj(vec![k("uri"), ("val".into(), js(&x.value))], rng),
+            Value::XStr(x) => obj(vec![k("xstr"), ("type".into(), js(&x.r#type)), ("val".into(), js(&x.value))], rng),
+            Value::Coord(c) => obj(vec![k("coord"), ("lat".into(), num(c.lat, rng)), ("lng".into(), num(c.long, rng))], rng),
+            Value::Date(d) => obj(vec![k("date"), ("val".into(), js(&d.to_string()))], rng),
+            Value::Time(t) => obj(vec![k("time"), ("val".into(), js(&t.to_string()))], rng),
+            Value::DateTime(d) => { let iso = { use libhaystack::encoding::zinc::encode::ToZinc; v.to_zinc_string().unwrap().split(' ').next().unwrap().to_string() }; let mut m = vec![k("dateTime"), ("val".into(), js(&iso))];
+                if !d.is_utc() { m.push(("tz".into(), js(&d.timezone_short_name()))); } else if rng.below(2) == 0 { m.push(("tz".into(), js("UTC"))); } obj(m, rng) }
+            Value::List(l) => format!("[{}]", l.iter().map(|e| value(e, rng)).collect::<Vec<_>>().join(",")),
+            Value::Dict(d) => { let k = rng.below(3) == 0; dict(d, rng, k) }
+            Value::Grid(g) => grid(g, rng),
+        }
+    }
+    fn grid(g: &Grid, rng: &mut Rng) -> String {
+        let mut meta: Vec<(String, String)> = g.meta.iter().flat_map(|m| m.iter()).map(|(k, v)| (k.clone(), value(v, rng))).collect();
+        let with_ver = g.ver != "3.0" || rng.below(2) == 0;
+        if with_ver { meta.push(("ver".into(), js(&g.ver))); }
+        let mut m = vec![("_kind".to_string(), js("grid"))];
+        if with_ver || !meta.is_empty() || rng.below(2) == 0 { m.push(("meta".into(), obj(meta, rng))); }
+        let cols: Vec<String> = g.columns.iter().map(|c| { let mut cm = vec![("name".to_string(), js(&c.name))];
+            match &c.meta { Some(d) if !d.is_empty() => cm.push(("meta".into(), dict(d, rng, false))), _ => if rng.below(3) == 0 { cm.push(("meta".into(), "{}".into())); } } obj(cm, rng) }).collect();
+        m.push(("cols".into(), format!("[{}]", cols.join(","))));
+        let rows: Vec<String> = g.rows.iter().map(|r| dict(r, rng, false)).collect();
+        m.push(("rows".into(), format!("[{}]", rows.join(","))));
+        obj(m, rng)
+    }
+}
+
 fn main() {
     let args: Vec<String> = std::env::args().collect();
     let fam = args.get(1).map(|s| s.as_str()).unwrap_or("");
@@ -949,6 +1009,28 @@ fn main() {
                 }
             } } }
             println!("RESULT enum:eq-laws {} values, all pairs and triples satisfy the equality / hash / order laws", vals.len());
+        }
+        // ---- C12: the same laws over seeded random values (all kinds, nested), all pairs and triples of a batch, many batches
+        "enum:random-eq-laws" => {
+            use randgen::*;
+            let seed: u64 = std::env::var("VERIF_SEED").ok().and_then(|s| s.parse().ok()).unwrap_or(0);
+            let batches: usize = args.get(2).and_then(|s| s.parse().ok()).unwrap_or(40);
+            let mut rng = Rng::seeded(seed ^ 0x3C3C);
+            let mut n = 0u64;
+            for _ in 0..batches {
+                // a batch: random values, and for some of them an equal copy and a near copy (so that equal pairs occur)
+                // (the property speaks of values without NaN)
+                let mut vals: Vec<Value> = (0..10).map(|_| value(&mut rng, 0, &IDS, &STRS, &UNITS, &ZONES)).filter(|v| !format!("{v:?}").contains("NaN")).collect();
+                if vals.len() < 3 { continue; }
+                let k = vals.len(); for i in 0..k { if rng.below(2) == 0 { let c = vals[i].clone(); vals.push(c); } }
+                vals.push(Value::make_list(vals[..3].to_vec())); vals.push(Value::make_list(vals[..3].to_vec()));
+                for a in &vals { for b in &vals { for c in &vals {
+                    n += 1;
+                    let bad = laws(a, b, c);
+                    if !bad.is_empty() { println!("RESULT enum:random-eq-laws seed={seed} a={a:?} b={b:?} c={c:?} violated={bad:?}"); std::process::exit(3); }
+                } } }
+            }
+            println!("RESULT enum:random-eq-laws seed={seed}: {n} random triples satisfy the equality / hash / order laws");
         }
         // ---- C19 enumerator: kinds are exclusive on sample values; a grid built from records keeps them as rows and has one sorted column per distinct tag
         "enum:kinds-grid" => {
@@ -1403,6 +1485,156 @@ fn main() {
                 }
             }
             println!("RESULT enum:random-spellings seed={seed}: {count} random values in random legal spellings are decoded to the value they denote");
+        }
+        // ---- C05 reader side: seeded random values spelled by the independent Hayson writer in a random legal spelling must be decoded to the value
+        "enum:random-hayson-spellings" => {
+            use randgen::*;
+            let seed: u64 = std::env::var("VERIF_SEED").ok().and_then(|s| s.parse().ok()).unwrap_or(0);
+            let count: usize = args.get(2).and_then(|s| s.parse().ok()).unwrap_or(1500);
+            let mut rng = Rng::seeded(seed ^ 0xAAAA);
+            for i in 0..count {
+                let v = value(&mut rng, 0, &IDS, &STRS, &UNITS, &ZONES);
+                let text = refhaysonwrite::value(&v, &mut rng);
+                let got = serde_json::from_str::<Value>(&text);
+                if !matches!(&got, Ok(b) if format!("{:?}", norm(b)) == format!("{:?}", norm(&v))) {
+                    println!("RESULT enum:random-hayson-spellings seed={seed} value #{i} {v:?}: the Hayson document {text} is decoded as {got:?}");
+                    std::process::exit(3);
+                }
+            }
+            println!("RESULT enum:random-hayson-spellings seed={seed}: {count} random values in random legal Hayson spellings are decoded to the value they denote");
+        }
+        // ---- C08 (and C07 through it): seeded random filter trees, every term kind and literal kind, printed by the library and by an independent
+        //      printer with random legal spacing; both texts must parse back to the tree they were printed from
+        "enum:random-filters" => {
+            use libhaystack::filter::nodes::*;
+            use libhaystack::filter::path::Path;
+            use libhaystack::filter::Filter;
+            use libhaystack::val::{Date, DateTime, Ref, Symbol, Time};
+            use randgen::Rng;
+            let seed: u64 = std::env::var("VERIF_SEED").ok().and_then(|s| s.parse().ok()).unwrap_or(0);
+            let count: usize = args.get(2).and_then(|s| s.parse().ok()).unwrap_or(800);
+            let mut rng = Rng::seeded(seed ^ 0x0F0F);
+            let path_texts = ["a", "siteRef", "x1", "camelCase", "a->b", "equipRef->siteRef->dis", "with_under->n"];
+            let paths: Vec<(Path, &str)> = path_texts.iter().map(|t| match &Filter::try_from(*t).expect("path").or.ands[0].terms[0] { Term::Has(h) => (h.path.clone(), *t), _ => panic!("path") }).collect();
+            fn ws(rng: &mut Rng) -> &'static str { ["", " ", "  ", "\n", " \t"][rng.below(5)] }
+            fn sp(rng: &mut Rng) -> &'static str { [" ", "  ", "\n", " \t "][rng.below(4)] }
+            let lit = |rng: &mut Rng| -> (Value, String) {
+                match rng.below(10) {
+                    0 => { let x = *rng.pick(&[0.0, 1.0, -1.5, 1e-7, 123456.789, 1e21, -9876543210.5, 0.1 + 0.2]); let v = Value::make_number(x); let t = if rng.below(2) == 0 { format!("{x:e}") } else { format!("{x}") }; (v, t) }
+                    1 => { let u = libhaystack::units::get_unit_or_default(*rng.pick(&["kg", "%", "kW", "s"])); let x = *rng.pick(&[5.0, -2.5, 100.0]); (Value::make_number_unit(x, u), format!("{x}{}", u.symbol())) }
+                    2 => { let t = *rng.pick(&["", "a b", "q\"uote", "back\\slash", "$d", "\u{e9}\n"]); (Value::make_str(t), { use libhaystack::encoding::zinc::encode::ToZinc; Value::make_str(t).to_zinc_string().unwrap() }) }
+                    3 => (Value::make_ref("p:demo:r:1"), "@p:demo:r:1".into()),
+                    4 => (Value::make_ref_with_dis("s-1", "Site 1"), "@s-1 \"Site 1\"".into()),
+                    5 => (Value::make_uri("http://x/y?z=1"), "`http://x/y?z=1`".into()),
+                    6 => (Value::make_symbol("hot-water"), "^hot-water".into()),
+                    7 => { let b = rng.below(2) == 0; (Value::make_bool(b), if b { "true".into() } else { "false".into() }) }
+                    8 => if rng.below(2) == 0 { (Value::make_date(Date::from_ymd(2021, 6, 1).unwrap()), "2021-06-01".into()) } else { (Value::make_time(Time::from_hms_milli(12, 30, 5, 500).unwrap()), "12:30:05.5".into()) },
+                    _ => if rng.below(2) == 0 { (Value::make_datetime(DateTime::parse_from_rfc3339("2021-06-01T12:00:00Z").unwrap()), "2021-06-01T12:00:00Z".into()) }
+                         else { (Value::make_datetime(DateTime::parse_from_rfc3339_with_timezone("2021-06-01T12:00:00-04:00", "New_York").unwrap()), "2021-06-01T12:00:00-04:00 New_York".into()) },
+                }
+            };
+            fn gen_or(rng: &mut Rng, depth: usize, paths: &[(Path, &str)], lit: &dyn Fn(&mut Rng) -> (Value, String)) -> (Or, String) {
+                let n = 1 + rng.below(3); let mut ands = vec![]; let mut t = String::new();
+                for i in 0..n { let (a, at) = gen_and(rng, depth, paths, lit); if i > 0 { t.push_str(sp(rng)); t.push_str("or"); t.push_str(sp(rng)); } t.push_str(&at); ands.push(a); }
+                (Or { ands }, t)
+            }
+            fn gen_and(rng: &mut Rng, depth: usize, paths: &[(Path, &str)], lit: &dyn Fn(&mut Rng) -> (Value, String)) -> (And, String) {
+                let n = 1 + rng.below(3); let mut terms = vec![]; let mut t = String::new();
+                for i in 0..n { let (a, at) = gen_term(rng, depth, paths, lit); if i > 0 { t.push_str(sp(rng)); t.push_str("and"); t.push_str(sp(rng)); } t.push_str(&at); terms.push(a); }
+                (And { terms }, t)
+            }
+            fn gen_term(rng: &mut Rng, depth: usize, paths: &[(Path, &str)], lit: &dyn Fn(&mut Rng) -> (Value, String)) -> (Term, String) {
+                let (p, pt) = paths[rng.below(paths.len())].clone();
+                match rng.below(if depth < 2 { 8 } else { 7 }) {
+                    0 => (Term::Has(Has { path: p }), pt.to_string()),
+                    1 => (Term::Missing(Missing { path: p }), format!("not{}{pt}", sp(rng))),
+                    2 | 3 => { let (op, ot) = [(CmpOp::Eq, "=="), (CmpOp::NotEq, "!="), (CmpOp::LessThan, "<"), (CmpOp::LessThanEq, "<="), (CmpOp::GreatThan, ">"), (CmpOp::GreatThanEq, ">=")][rng.below(6)].clone();
+                        let (v, vt) = lit(rng); (Term::Cmp(Cmp { path: p, op, value: v }), format!("{pt}{}{ot}{}{vt}", ws(rng), ws(rng))) }
+                    4 => (Term::IsA(IsA { symbol: Symbol::from("site") }), "^site".into()),
+                    5 => (Term::WildcardEq(WildcardEq { id: p, ref_value: Ref::make("r1", None) }), format!("{pt}{}*=={}@r1", ws(rng), ws(rng))),
+                    6 => match rng.below(3) { 0 => (Term::Relation(Relation { rel: Symbol::from("inputs"), rel_term: None, ref_value: None }), "inputs?".into()),
+                        1 => (Term::Relation(Relation { rel: Symbol::from("inputs"), rel_term: Some(Symbol::from("air")), ref_value: None }), format!("inputs?{}^air", sp(rng))),
+                        _ => (Term::Relation(Relation { rel: Symbol::from("inputs"), rel_term: Some(Symbol::from("air")), ref_value: Some(Ref::make("r1", None)) }), format!("inputs?{}^air{}@r1", sp(rng), sp(rng))) },
+                    _ => { let (o, ot) = gen_or(rng, depth + 1, paths, lit); (Term::Parens(Parens { or: o }), format!("({}{ot}{})", ws(rng), ws(rng))) }
+                }
+            }
+            for i in 0..count {
+                let (or, text) = gen_or(&mut rng, 0, &paths, &lit);
+                let want = Filter { or };
+                for (what, t) in [("the independent printer's text", text.clone()), ("the library's own text", want.to_string())] {
+                    let got = Filter::try_from(t.as_str());
+                    if !matches!(&got, Ok(g) if *g == want) {
+                        println!("RESULT enum:random-filters seed={seed} filter #{i}: {what} {t:?} parses to {:?}, the tree it was printed from is {:?}", got.map(|g| g.to_string()), want.to_string());
+                        std::process::exit(3);
+                    }
+                }
+            }
+            println!("RESULT enum:random-filters seed={seed}: {count} random filter trees come back from the library's text and from an independent spelling with random spacing");
+        }
+        // ---- C06: timestamps in ~90 zones (whole- and fractional-hour offsets, both hemispheres) at instants in winter, in summer and around the
+        //      European and American clock changes keep their instant, offset and zone name through Zinc and Hayson
+        "enum:zones" => {
+            use libhaystack::encoding::zinc::encode::ToZinc;
+            use libhaystack::val::DateTime;
+            let zones = ["UTC", "London", "Paris", "Berlin", "Madrid", "Rome", "Lisbon", "Dublin", "Athens", "Helsinki", "Moscow", "Istanbul", "Kiev", "Warsaw", "Zurich", "Oslo", "Stockholm",
+                "New_York", "Chicago", "Denver", "Los_Angeles", "Phoenix", "Anchorage", "Honolulu", "Toronto", "Vancouver", "Halifax", "St_Johns", "Mexico_City", "Bogota", "Lima", "Santiago",
+                "Sao_Paulo", "Buenos_Aires", "Caracas", "Havana", "Cairo", "Johannesburg", "Lagos", "Nairobi", "Casablanca", "Dubai", "Tehran", "Kabul", "Karachi", "Kolkata", "Kathmandu", "Dhaka",
+                "Yangon", "Bangkok", "Jakarta", "Singapore", "Hong_Kong", "Shanghai", "Taipei", "Manila", "Seoul", "Tokyo", "Perth", "Eucla", "Darwin", "Adelaide", "Brisbane", "Sydney", "Melbourne",
+                "Hobart", "Lord_Howe", "Auckland", "Chatham", "Fiji", "Tongatapu", "Apia", "Kiritimati", "Marquesas", "Tahiti", "Noumea", "Guam", "Reykjavik", "Azores", "Cape_Verde", "Jerusalem",
+                "Baghdad", "Riyadh", "Tashkent", "Almaty", "Colombo", "Ulaanbaatar", "Vladivostok", "Kamchatka", "GMT+5", "GMT-10"];
+            let instants = ["2021-01-15T12:00:00Z", "2021-07-15T12:00:00Z", "2021-03-28T00:59:59Z", "2021-03-28T01:00:00Z", "2021-10-31T00:30:00Z", "2021-10-31T01:30:00Z", "2021-03-14T06:59:59Z",
+                "2021-03-14T10:00:00Z", "2021-11-07T05:30:00Z", "2021-11-07T09:30:00Z", "1999-12-31T23:59:59.999Z", "2038-01-19T03:14:08Z"];
+            let (mut n, mut skipped) = (0, vec![]);
+            for z in zones {
+                let mut ok_zone = false;
+                for t in instants {
+                    let dt = match if z == "UTC" { DateTime::parse_from_rfc3339(t) } else { DateTime::parse_from_rfc3339_with_timezone(t, z) } { Ok(d) => d, Err(_) => continue };
+                    ok_zone = true;
+                    let v = Value::make_datetime(dt.clone());
+                    let want = (dt.timestamp_nanos_opt(), dt.offset().to_string(), dt.timezone_short_name());
+                    let zinc = v.to_zinc_string().unwrap();
+                    let json = serde_json::to_string(&v).unwrap();
+                    for (what, back) in [("Zinc", from_str(&zinc).map_err(|e| e.to_string())), ("Hayson", serde_json::from_str::<Value>(&json).map_err(|e| e.to_string()))] {
+                        n += 1;
+                        let got = match &back { Ok(Value::DateTime(b)) => Some((b.timestamp_nanos_opt(), b.offset().to_string(), b.timezone_short_name())), _ => None };
+                        if got.as_ref() != Some(&want) {
+                            println!("RESULT enum:zones zone={z} instant={t}: {what} text {:?} comes back as {back:?} = {got:?}, expected {want:?}", if what == "Zinc" { &zinc } else { &json });
+                            std::process::exit(3);
+                        }
+                    }
+                }
+                if !ok_zone { skipped.push(z); }
+            }
+            println!("RESULT enum:zones {n} round trips over {} zones x {} instants keep instant, offset and zone name; names not accepted by the constructor and skipped: {skipped:?}", zones.len() - skipped.len(), instants.len());
+        }
+        // ---- C19: Grid::make_from_dicts over seeded random record lists keeps the records as rows, in order, and has exactly one column per
+        //      distinct tag name, sorted; typed getters agree with the kind of the value
+        "enum:random-kinds-grid" => {
+            use libhaystack::val::{Dict, Grid, HaystackDict};
+            use randgen::*;
+            let seed: u64 = std::env::var("VERIF_SEED").ok().and_then(|s| s.parse().ok()).unwrap_or(0);
+            let count: usize = args.get(2).and_then(|s| s.parse().ok()).unwrap_or(400);
+            let mut rng = Rng::seeded(seed ^ 0x7171);
+            for i in 0..count {
+                let recs: Vec<Dict> = (0..rng.below(5)).map(|_| dict(&mut rng, 1, &IDS, &STRS, &UNITS, &ZONES)).collect();
+                let g = Grid::make_from_dicts(recs.clone());
+                let mut want: Vec<String> = recs.iter().flat_map(|r| r.keys().cloned()).collect(); want.sort(); want.dedup();
+                let got: Vec<String> = g.columns.iter().map(|c| c.name.clone()).collect();
+                if format!("{:?}", g.rows) != format!("{recs:?}") || got != want || g.columns.iter().any(|c| c.meta.is_some()) {
+                    println!("RESULT enum:random-kinds-grid seed={seed} #{i} records={recs:?}: grid rows={:?} columns={got:?}, expected the records as rows and the columns {want:?}", g.rows);
+                    std::process::exit(3);
+                }
+                for r in &recs { for (k, v) in r.iter() {
+                    let preds = [v.is_null(), v.is_marker(), v.is_remove(), v.is_na(), v.is_bool(), v.is_number(), v.is_str(), v.is_ref(), v.is_uri(), v.is_symbol(), v.is_date(), v.is_time(), v.is_datetime(), v.is_coord(), v.is_xstr(), v.is_list(), v.is_dict(), v.is_grid()];
+                    let getters = [r.get_str(k).is_some() == v.is_str(), r.get_num(k).is_some() == v.is_number(), r.get_ref(k).is_some() == v.is_ref(), r.get_bool(k).is_some() == v.is_bool(),
+                        r.get_list(k).is_some() == v.is_list(), r.get_dict(k).is_some() == v.is_dict(), r.get_grid(k).is_some() == v.is_grid(), r.has_marker(k) == v.is_marker()];
+                    if preds.iter().filter(|p| **p).count() != 1 || getters.iter().any(|x| !x) {
+                        println!("RESULT enum:random-kinds-grid seed={seed} #{i} tag {k}={v:?}: kind predicates {preds:?}, typed getters agree {getters:?}");
+                        std::process::exit(3);
+                    }
+                } }
+            }
+            println!("RESULT enum:random-kinds-grid seed={seed}: {count} random record lists: rows kept in order, one sorted column per distinct tag, one kind per value, typed getters agree");
         }
         // ---- C09 enumerator (evaluation half): `id *== @ref` over resolvers whose refs form chains and cycles of several shapes must
         //      terminate with the right answer; a run that does not come back is reported as a hang by the caller's watchdog
